@@ -226,6 +226,8 @@ type altBlock struct {
 	prop  *types.Proposal
 }
 
+var netSeq int
+
 var hookMu sync.Mutex
 var hookNet *Net
 
@@ -269,6 +271,12 @@ func Keys(n int) []crypto.PrivKeyEd25519 {
 
 // NewNet builds the nodes of a scenario (not started).
 func NewNet(sc *Scenario, dir string) *Net {
+	// every execution of a process gets its own directory and none is removed while the
+	// process lives: a WAL group's 5-second size-check goroutine of an earlier execution may
+	// still be scheduled late (loaded machine) and panics if its directory has disappeared.
+	// The parent removes the whole worker directory when the worker process has exited.
+	netSeq++
+	dir = fmt.Sprintf("%s-%d", dir, netSeq)
 	nt := &Net{Sc: sc, Dir: dir, blocks: map[string]string{}, Blocks: map[string]*types.Block{}, fired: map[int]int{}, altBlock: map[string]*altBlock{}, rulesOn: true}
 	os.RemoveAll(dir)
 	os.MkdirAll(dir, 0755)
